@@ -203,7 +203,8 @@ class Spec(PropSpec):
     props_file = "C13.v"
     coq_targets = ["C13.vo"]
     theorems = ["c13_index_coherent", "c13_remove_clears", "c13_connect_iff", "c13_connect_result", "c13_synsent_outcomes",
-                "c13_accept_pops", "c13_accept_once", "c13_accept_logs", "c13_owned", "c13_listeners_held", "c13_reclaimed_partial", "c13_close_open", "c13_reclaimed_refuted", "c13_nonvacuous"]
+                "c13_accept_pops", "c13_accept_once", "c13_accept_logs", "c13_owned", "c13_listeners_held",
+                "c13_world_projects", "c13_world_owned", "c13_world_accept_once", "c13_reclaimed_partial", "c13_close_open", "c13_reclaimed_refuted", "c13_nonvacuous"]
     consts = F.NET_CONSTS
     anchors = F.NET_ANCHORS
     harness_bins = ["nettcp"]
@@ -217,7 +218,7 @@ class Spec(PropSpec):
     assumptions = [
         "c13_index_coherent quantifies over every syscall sequence with arbitrary arguments and every inbound packet sequence (kreach)",
         "c13_connect_iff is the decision taken when the SYN / the reply is processed; reachability of the listener's host is the wire's business (the harness is the wire)",
-        "c13_owned / c13_accept_once are stated on `ostep`: one host's kernel together with the set of fds its application holds (the per-host view of the harness slot table); the application only names fds it holds, a panicking accept is not a step; wakers are not modelled",
+        "c13_owned / c13_accept_once are stated on `ostep` (one host's kernel with the fds its application holds) and carried to histories of the whole world model (hosts + wire + handle table, the model the correspondence runs) by the proved simulation c13_world_projects; a handle is never created in an occupied slot (harness and model refuse it), a panicking accept is not a step; wakers are not modelled",
         "sequence numbers are unbounded naturals; ephemeral-port wrap-around (16384 connects) is not exercised",
     ]
     partial_note = ("c13_reclaimed_partial: proved are the reap post-condition of every egress pass, immediate removal on close of "
